@@ -14,6 +14,13 @@
     `obj.attr` for the listed attributes (each must be assigned in that class's `__init__`; they
     become parameters obj_attr in py2coq) or through listed one-line methods, which are inlined
     after checking that their body is a single `return <expr>`.
+  * an INHERITED attribute (`self.allow_missing`, stored by the base class Filter) is accepted as
+    a read-only parameter when (checked by `inherited_attr_ok`): the class has exactly the one
+    base class named in `inherited`; the class' own `__init__` contains exactly one call
+    `super(self.__class__, self).__init__(..., X, ...)` (a top-level expression statement) whose
+    argument in the base constructor's position of X is the bare, never reassigned constructor
+    parameter X; the base `__init__` stores `self.X = X` exactly once, and neither class stores
+    to X anywhere else.
   * any other occurrence of `self`, a name clash between attributes and locals, decorators,
     nested functions, a second return ... raise Unsupported.
 """
@@ -129,9 +136,71 @@ def inline_expr_method(cls, name):
     return params, expr
 
 
-def extract_method(tree, cls_name, meth, new_name, state=(), objects=None):
-    """objects: {param: (class tree, class name, [attrs], [methods to inline])}"""
+def inherited_attr_ok(cls, attr, base_tree, base_name):
+    """`self.attr` of an object of class `cls` is the constructor argument `attr`, stored by the
+    base class' __init__ (see the module docstring).  Raises Unsupported otherwise."""
+    if len(cls.bases) != 1 or not isinstance(cls.bases[0], ast.Name) or cls.bases[0].id != base_name \
+            or cls.keywords:
+        raise Unsupported('%s: base class is not exactly %s' % (cls.name, base_name))
+    base = find_class(base_tree, base_name)
+    if [b for b in base.bases if not (isinstance(b, ast.Name) and b.id == 'object')] or base.keywords:
+        raise Unsupported('%s has base classes of its own' % base_name)
+    if attr in self_stores(cls):
+        raise Unsupported('self.%s is stored by %s itself' % (attr, cls.name))
+    bst = self_stores(base).get(attr, [])
+    if len(bst) != 1 or bst[0][0] != '__init__' or not isinstance(bst[0][1], ast.Name) or bst[0][1].id != attr:
+        raise Unsupported('self.%s is not a constructor-argument attribute of %s' % (attr, base_name))
+    binit = find_method(base, '__init__')
+    for st in binit.body:
+        if not isinstance(st, (ast.Assign, ast.Expr)):
+            raise Unsupported('%s.__init__ is not straight-line' % base_name)
+    bparams = [a.arg for a in binit.args.args[1:]]
+    if attr not in bparams or any(isinstance(n, ast.Name) and n.id == attr and isinstance(n.ctx, ast.Store)
+                                  for n in ast.walk(binit)):
+        raise Unsupported('%s.__init__ does not take %s unchanged' % (base_name, attr))
+    pos = bparams.index(attr)
+    init = find_method(cls, '__init__')
+    iparams = [a.arg for a in init.args.args[1:]]
+    if attr not in iparams or any(isinstance(n, ast.Name) and n.id == attr and isinstance(n.ctx, ast.Store)
+                                  for n in ast.walk(init)):
+        raise Unsupported('%s.__init__ does not take %s unchanged' % (cls.name, attr))
+    supers = [n for n in ast.walk(init) if isinstance(n, ast.Call) and isinstance(n.func, ast.Attribute) and
+              n.func.attr == '__init__']
+    tops = [st.value for st in init.body if isinstance(st, ast.Expr)]
+    if len(supers) != 1 or supers[0] not in tops:
+        raise Unsupported('%s.__init__: exactly one top-level super().__init__ call expected' % cls.name)
+    c = supers[0]
+    r = c.func.value
+    ok_recv = isinstance(r, ast.Call) and isinstance(r.func, ast.Name) and r.func.id == 'super' and \
+        not r.keywords and (
+            not r.args or
+            (len(r.args) == 2 and isinstance(r.args[1], ast.Name) and r.args[1].id == 'self' and
+             ((isinstance(r.args[0], ast.Name) and r.args[0].id == cls.name) or
+              (isinstance(r.args[0], ast.Attribute) and r.args[0].attr == '__class__' and
+               isinstance(r.args[0].value, ast.Name) and r.args[0].value.id == 'self'))))
+    if not ok_recv:
+        raise Unsupported('%s.__init__: receiver of __init__ is not super(...)' % cls.name)
+    arg = None
+    if pos < len(c.args):
+        arg = c.args[pos]
+    for k in c.keywords:
+        if k.arg is None:
+            raise Unsupported('**kwargs in super().__init__')
+        if k.arg == attr:
+            if arg is not None:
+                raise Unsupported('super().__init__: %s given twice' % attr)
+            arg = k.value
+    if any(isinstance(a, ast.Starred) for a in c.args):
+        raise Unsupported('*args in super().__init__')
+    if not (isinstance(arg, ast.Name) and arg.id == attr):
+        raise Unsupported('%s.__init__ does not forward %s to %s.__init__' % (cls.name, attr, base_name))
+
+
+def extract_method(tree, cls_name, meth, new_name, state=(), objects=None, inherited=None):
+    """objects: {param: (class tree, class name, [attrs], [methods to inline])}
+    inherited: {attr: (base class tree, base class name)}"""
     objects = objects or {}
+    inherited = inherited or {}
     cls = find_class(tree, cls_name)
     fn = copy.deepcopy(find_method(cls, meth))
     stores = self_stores(cls)
@@ -172,10 +241,16 @@ def extract_method(tree, cls_name, meth, new_name, state=(), objects=None):
         if isinstance(n, ast.Attribute) and isinstance(n.value, ast.Name) and n.value.id == 'self' and \
                 isinstance(n.ctx, ast.Store) and n.attr not in init_order:
             init_order.append(n.attr)
+    inh = []
     for a in read:
         if a not in init_order:
+            if a in inherited:
+                inherited_attr_ok(cls, a, *inherited[a])
+                inh.append(a)
+                continue
             raise Unsupported('self.%s is read but not initialised in %s.__init__' % (a, cls_name))
-    read.sort(key=init_order.index)
+    read = sorted([a for a in read if a not in inh], key=init_order.index) + \
+        sorted(inh, key=list(inherited).index)
     if sorted(written) != sorted(state):
         raise Unsupported('%s.%s writes %s, expected %s' % (cls_name, meth, sorted(written), sorted(state)))
     for a in list(read) + list(state):
@@ -183,6 +258,8 @@ def extract_method(tree, cls_name, meth, new_name, state=(), objects=None):
             raise Unsupported('attribute %s clashes with a local name of %s.%s' % (a, cls_name, meth))
     # read attributes: exactly `self.X = X` in __init__ and no other store in the class
     for a in read:
+        if a in inh:
+            continue
         st = stores.get(a, [])
         if len(st) != 1 or st[0][0] != '__init__' or not isinstance(st[0][1], ast.Name) or \
                 st[0][1].id != a:
